@@ -1484,6 +1484,57 @@ def r_conversion_sites(ctx: Ctx, rule: str) -> None:
     rep.floor(rule, "converter installation sites in add_function_arg", n_ok, 1)
 
 
+ARGPARSE_DEFAULTS = {"fromfile_prefix_chars": None, "prefix_chars": "-", "argument_default": None, "conflict_handler": "error", "allow_abbrev": True,
+                     "exit_on_error": True, "add_help": True}
+
+
+def r_parser_config(ctx: Ctx, rule: str) -> None:
+    """How a command line is read is argparse's default reading: no construction site, keyword dictionary or attribute store in the
+    control package sets one of the options that change it (reading arguments from files, other prefix characters, a default for
+    every argument, overriding duplicate options, abbreviations off, errors raised past `error()`, no -h, inherited arguments)."""
+    rep = ctx.rep
+    cp, sess = anchors(ctx)
+    rep.rule(rule, "PARSER-CONFIG: in the control package none of fromfile_prefix_chars / prefix_chars / argument_default / conflict_handler / "
+                   "allow_abbrev / exit_on_error / add_help / parents is given a value other than argparse's default - as a keyword, a "
+                   "dictionary key handed on as keywords, or an attribute of a parser")
+    names = set(ARGPARSE_DEFAULTS) | {"parents"}
+    mods = {cp.module.name, sess.module.name}
+
+    def default_valued(key: str, v: Optional[ast.AST]) -> bool:
+        if key == "parents":
+            return isinstance(v, (ast.List, ast.Tuple)) and not v.elts
+        return isinstance(v, ast.Constant) and v.value == ARGPARSE_DEFAULTS[key] and type(v.value) is type(ARGPARSE_DEFAULTS[key])
+
+    n_sites = 0
+    for m in ctx.prog.modules.values():
+        if m.name not in mods:
+            continue
+        n_sites += sum(1 for x in ast.walk(m.tree) if isinstance(x, ast.Call) and (x.keywords or any(isinstance(a, ast.Starred) for a in x.args)))
+        for x in ast.walk(m.tree):
+            found: List[Tuple[str, Optional[ast.AST], str]] = []
+            if isinstance(x, ast.Call):
+                found += [(k.arg, k.value, "keyword") for k in x.keywords if k.arg in names]
+                if isinstance(x.func, ast.Attribute) and x.func.attr in ("setdefault", "__setitem__") and len(x.args) == 2 and isinstance(x.args[0], ast.Constant) and x.args[0].value in names:
+                    found.append((x.args[0].value, x.args[1], "dictionary entry"))
+                if isinstance(x.func, ast.Name) and x.func.id == "setattr" and len(x.args) == 3 and isinstance(x.args[1], ast.Constant) and x.args[1].value in names:
+                    found.append((x.args[1].value, x.args[2], "setattr"))
+            elif isinstance(x, ast.Dict):
+                found += [(k.value, v, "dictionary key") for k, v in zip(x.keys, x.values) if isinstance(k, ast.Constant) and k.value in names]
+            elif isinstance(x, (ast.Assign, ast.AnnAssign, ast.AugAssign)):
+                for t in (x.targets if isinstance(x, ast.Assign) else [x.target]):
+                    for y in ast.walk(t):
+                        if isinstance(y, ast.Attribute) and y.attr in names and isinstance(y.ctx, ast.Store):
+                            found.append((y.attr, getattr(x, "value", None), "attribute store"))
+                        if isinstance(y, ast.Subscript) and isinstance(y.slice, ast.Constant) and y.slice.value in names and isinstance(y.ctx, ast.Store):
+                            found.append((y.slice.value, getattr(x, "value", None), "dictionary entry"))
+            for key, val, how in found:
+                fn = next((g for g in ctx.prog.all_functions() if g.module is m and any(y is x for y in ast.walk(g.node))), None)
+                rep.ob(rule, "the parsers read command lines the way argparse does by default", default_valued(key, val), func=fn, construct=x,
+                       detail=f"{how} {key}={ast.unparse(val) if val is not None else '?'}")
+    rep.floor(rule, "calls with keywords in the control parser / session modules (scanned)", n_sites, 10)
+    rep.ob(rule, "no argparse reading option is changed anywhere in the control package", True, construct="(scan of control.parser and control.session)")
+
+
 def public_members(ctx: Ctx, c: ClassInfo):
     """(name, FuncInfo, [(param, annotation, default)]) for every public function/property of the class as getmembers + the '_' filter see it"""
     seen: Set[str] = set()
